@@ -30,6 +30,7 @@ def tagName (t : Tag) : String := lastName (reprStr t)
 def regionName : Region → String
   | .body m => "body." ++ methodName m
   | .innerBody m => "innerBody." ++ methodName m
+  | .subBody m => "subBody." ++ methodName m
   | r => lastName (reprStr r)
 
 def findBy {α : Type} (all : List α) (name : α → String) (s : String) : Option α := all.find? (fun a => name a == s)
@@ -158,7 +159,7 @@ def answer (j : Json) : Json :=
       ("loaderExc", Json.mkObj (Mode.all.map (fun m => (modeName m, Json.arr ((T.loaderExc m).map (fun c => Json.str (excName c))).toArray)))),
       ("errorExit", match T.error.exitStatus with | some n => (n : Json) | none => Json.null),
       ("errorRaises", match T.error.raisesWhenNoExit with | some c => Json.str (excName c) | none => Json.null),
-      ("plainExit", (T.plainExit : Json)), ("innerExitOnError", Json.bool T.innerExitOnError), ("helpExitOnError", Json.bool T.helpExitOnError),
+      ("subInherited", Json.arr (T.subInherited.map Json.str).toArray), ("plainExit", (T.plainExit : Json)), ("innerExitOnError", Json.bool T.innerExitOnError), ("helpExitOnError", Json.bool T.helpExitOnError),
       ("regions", (Region.all.length : Json)), ("states", (St.all.length : Json))]
   | q => Json.mkObj [("bad-query", q)]
 
